@@ -321,7 +321,7 @@ Definition pot (g : ghost) (stt : mstate) : nat :=
   length (gSs g) + length (gPs g) + match stt with MNone => 1 | _ => 0 end.
 
 Definition kinv (rel : list nat -> Prop) (k : computer) (s : Prog.st) (g : ghost) : Prop :=
-  k = kk (c_cur k) (c_model k) (c_state k) /\ NoDup (c_cur k) /\
+  k = kk (c_cur k) (c_model k) (c_state k) /\ NoDup (c_cur k) /\ sess_bounded s /\
   cls s = C0 ++ map bclause (gBs g) /\
   calls s <= c0 + pot g (c_state k) /\
   (forall S, In S (gSs g) -> base S) /\ sepl (gSs g) /\
@@ -341,7 +341,7 @@ Definition kinv (rel : list nat -> Prop) (k : computer) (s : Prog.st) (g : ghost
 Lemma kinv_weaken (rel rel' : list nat -> Prop) k s g :
   (forall P, rel' P -> rel P) -> kinv rel k s g -> kinv rel' k s g.
 Proof.
-  intros H (H1 & H1' & H2 & H3 & H4 & H5 & H6 & H7 & H8). repeat (split; [assumption|]).
+  intros H (H1 & H1' & H1'' & H2 & H3 & H4 & H5 & H6 & H7 & H8). repeat (split; [assumption|]).
   destruct (c_state k).
   - destruct H8 as (Bs0 & Ha & Hb & Hc & Hd). exists Bs0. repeat (split; [assumption|]).
     now apply (dead_weaken rel).
@@ -375,7 +375,7 @@ Notation wpx := (wp QA QP QF).
 
 (* new_search on a session whose blocked sets are dead *)
 Lemma new_search_spec rel cur m stt s Bs Ss Ps (Q : computer -> Prog.st -> Prop) :
-  fl = FPref -> NoDup cur ->
+  fl = FPref -> NoDup cur -> sess_bounded s ->
   cls s = C0 ++ map bclause Bs ->
   calls s <= c0 + length Ss + length Ps ->
   (forall S, In S Ss -> base S) -> sepl Ss ->
@@ -387,7 +387,7 @@ Lemma new_search_spec rel cur m stt s Bs Ss Ps (Q : computer -> Prog.st -> Prop)
       pot g' (c_state k') = length Ss + length Ps + 1 -> Q k' s') ->
   wpx (new_search oracle (kk cur m stt)) Q s.
 Proof.
-  intros Hfp Hnd Hc Hcalls HSs HsepS HPs HsepP HSB Hdead HA HQ.
+  intros Hfp Hnd Hsb Hc Hcalls HSs HsepS HPs HsepP HSB Hdead HA HQ.
   assert (Hall : forall a, allowedb a = true) by (unfold fl_ok in Hfl; now rewrite Hfp in Hfl).
   unfold new_search, solve_c. cbn [c_sel c_addl kk]. rewrite !wp_bind, wp_solve.
   pose proof (asm_search Hall) as Hasm.
@@ -397,7 +397,7 @@ Proof.
       as ([Hb Hal] & _ & Hnb).
     apply (HQ _ _ {| gBs := Bs; gSs := a2e m' :: Ss; gPs := Ps |}).
     + unfold kinv. cbn [with_cur kk c_cur c_model c_state gBs gSs gPs pot length].
-      split; [reflexivity|]. split; [first [apply a2e_NoDup|exact Hnd]|]. split; [now rewrite cls_solved|]. split; [cbn; lia|].
+      split; [reflexivity|]. split; [first [apply a2e_NoDup|exact Hnd]|]. split; [first [now apply sb_solved|unfold s1; now apply sb_solved, sb_add]|]. split; [now rewrite cls_solved|]. split; [cbn; lia|].
       split; [intros S [<-|HS]; [exact Hb|now apply HSs]|].
       split; [split; [|exact HsepS]; intros T HT; apply not_incl_not_seteq, Hnb, HSB, HT|].
       split; [exact HPs|]. split; [exact HsepP|].
@@ -409,7 +409,7 @@ Proof.
     pose proof (unsat_refines s Bs _ [] Hc Hasm Ha) as Hun.
     apply (HQ _ _ {| gBs := Bs; gSs := Ss; gPs := Ps |}).
     + unfold kinv. cbn [with_state with_cur kk c_cur c_model c_state gBs gSs gPs pot].
-      split; [reflexivity|]. split; [first [apply a2e_NoDup|exact Hnd]|]. split; [now rewrite cls_solved|]. split; [cbn; lia|].
+      split; [reflexivity|]. split; [first [apply a2e_NoDup|exact Hnd]|]. split; [first [now apply sb_solved|unfold s1; now apply sb_solved, sb_add]|]. split; [now rewrite cls_solved|]. split; [cbn; lia|].
       split; [exact HSs|]. split; [exact HsepS|]. split; [exact HPs|]. split; [exact HsepP|].
       split; [exact Hdead|].
       intros S HS. apply Hun; [split; [exact HS|now apply allowed_all]|intros a []].
@@ -428,7 +428,7 @@ Lemma compute_next_spec rel k s g (Q : computer -> Prog.st -> Prop) :
       pot g' (c_state k') = pot g (c_state k) + 1 -> Q k' s') ->
   wpx (compute_next oracle k) Q s.
 Proof.
-  intros (Hk & Hnd & Hc & Hcalls & HSs & HsepS & HPs & HsepP & Hst) Hfp Hdm Hnn HA HQ.
+  intros (Hk & Hnd & Hsb & Hc & Hcalls & HSs & HsepS & HPs & HsepP & Hst) Hfp Hdm Hnn HA HQ.
   destruct g as [Bs Ss Ps]. cbn [gBs gSs gPs] in *.
   rewrite Hk. unfold compute_next. cbn [c_state kk].
   destruct (c_state k) eqn:Est; unfold pot in *; cbn [gSs gPs] in *.
@@ -441,6 +441,7 @@ Proof.
     rewrite (split_eq e n _ Hcur). cbn [snd]. change (out_lits e n (c_cur k) ++ [zlit selv]) with (bclause (c_cur k)).
     rewrite wp_bind, wp_add_clause.
     apply (new_search_spec rel _ _ _ _ (Bs ++ [c_cur k]) Ss Ps); try assumption.
+    + now apply sb_add.
     + now apply cls_add_block.
     + cbn. lia.
     + intros P HP. destruct (HPs P HP) as [H1 H2]. split; [exact H1|apply in_or_app; now left].
@@ -466,7 +467,7 @@ Proof.
         destruct (sat_refines s1 _ _ _ m' Hc1 Hasm' Hcur Ha) as ([Hb' Hal'] & Hinc & Hnb').
         apply (HQ _ _ {| gBs := Bs ++ [c_cur k]; gSs := a2e m' :: Ss; gPs := Ps |}).
         + unfold kinv. cbn [with_cur kk c_cur c_model c_state gBs gSs gPs pot length].
-          split; [reflexivity|]. split; [first [apply a2e_NoDup|exact Hnd]|]. split; [now rewrite cls_solved|]. split; [cbn; unfold s1; cbn; lia|].
+          split; [reflexivity|]. split; [first [apply a2e_NoDup|exact Hnd]|]. split; [first [now apply sb_solved|unfold s1; now apply sb_solved, sb_add]|]. split; [now rewrite cls_solved|]. split; [cbn; unfold s1; cbn; lia|].
           split; [intros S [<-|HS]; [exact Hb'|now apply HSs]|].
           split; [split; [|exact HsepS]|].
           { intros T HT. apply not_incl_not_seteq, Hnb'. apply in_or_app.
@@ -492,7 +493,7 @@ Proof.
           { split; [split; assumption|]. intros T HT HcT.
             destruct (Hun T HT HcT) as [B [HB HTB]]. apply in_app_or in HB.
             destruct HB as [HB|[<-|[]]]; [|exact HTB]. exfalso. apply (Hnb B HB). exact (incl_tran HcT HTB). }
-          split; [reflexivity|]. split; [first [apply a2e_NoDup|exact Hnd]|]. split; [now rewrite cls_solved|]. split; [cbn; unfold s1; cbn; lia|].
+          split; [reflexivity|]. split; [first [apply a2e_NoDup|exact Hnd]|]. split; [first [now apply sb_solved|unfold s1; now apply sb_solved, sb_add]|]. split; [now rewrite cls_solved|]. split; [cbn; unfold s1; cbn; lia|].
           split; [exact HSs|]. split; [exact HsepS|].
           split.
           { intros P [<-|HP]; [split; [exact Hmax|apply in_or_app; right; now left]|].
@@ -521,7 +522,7 @@ Proof.
     destruct Hst as (-> & -> & ->). rewrite wp_ret.
     apply (HQ _ _ {| gBs := []; gSs := [gr0]; gPs := [] |}).
     + unfold kinv. cbn [with_cur kk c_cur c_model c_state gBs gSs gPs pot length c_g].
-      split; [reflexivity|]. split; [exact Hgr0nd|]. split; [exact Hc|]. split; [cbn in Hcalls; lia|].
+      split; [reflexivity|]. split; [exact Hgr0nd|]. split; [exact Hsb|]. split; [exact Hc|]. split; [cbn in Hcalls; lia|].
       split; [intros S [<-|[]]; exact (proj1 Hgr0)|]. split; [split; [intros T []|exact I]|].
       split; [intros P []|]. split; [exact I|].
       split; [exact Hgr0|]. split; [intros B []|]. split; [|apply dead_nil].
@@ -537,7 +538,7 @@ Lemma discard_current_spec rel k s g (Q : computer -> Prog.st -> Prop) :
       pot g' MJustDiscarded = pot g MIntermediate -> Q k' s') ->
   wpx (discard_current_search k) Q s.
 Proof.
-  intros (Hk & Hnd & Hc & Hcalls & HSs & HsepS & HPs & HsepP & Hst) Est Hfp Hdm HQ.
+  intros (Hk & Hnd & Hsb & Hc & Hcalls & HSs & HsepS & HPs & HsepP & Hst) Est Hfp Hdm HQ.
   destruct g as [Bs Ss Ps]. cbn [gBs gSs gPs] in *. rewrite Est in *.
   destruct Hst as ([Hb Hal] & Hnb & HSB & Hdead).
   assert (Hcur : forall a, In a (c_cur k) -> a < n) by (intros a Ha; exact (base_lt _ a Hb Ha)).
@@ -547,7 +548,7 @@ Proof.
   rewrite wp_bind, wp_add_clause, wp_ret.
   apply (HQ _ _ {| gBs := Bs ++ [c_cur k]; gSs := Ss; gPs := Ps |}).
   - unfold kinv. cbn [with_state with_cur kk c_cur c_model c_state gBs gSs gPs pot].
-    split; [reflexivity|]. split; [exact Hnd|]. split; [now apply cls_add_block|]. split; [cbn in *; lia|].
+    split; [reflexivity|]. split; [exact Hnd|]. split; [now apply sb_add|]. split; [now apply cls_add_block|]. split; [cbn in *; lia|].
     split; [exact HSs|]. split; [exact HsepS|].
     split; [intros P HP; destruct (HPs P HP) as [H1 H2]; split; [exact H1|apply in_or_app; now left]|].
     split; [exact HsepP|]. split.
@@ -566,7 +567,7 @@ Lemma pot_bound rel k s g :
   length (gSs g) <= length (all_base (enc_base e) F) /\
   (forall P, In P (gPs g) -> maxc P) /\ sepl (gPs g).
 Proof.
-  intros (Hk & Hnd & Hc & Hcalls & HSs & HsepS & HPs & HsepP & Hst). split; [|split].
+  intros (Hk & Hnd & Hsb & Hc & Hcalls & HSs & HsepS & HPs & HsepP & Hst). split; [|split].
   - now apply sepl_base_le.
   - intros P HP. now apply HPs.
   - exact HsepP.
@@ -575,7 +576,7 @@ Qed.
 Lemma kinv_max rel k s g : kinv rel k s g -> c_state k = MMaximal ->
   maxc (c_cur k) /\ NoDup (c_cur k).
 Proof.
-  intros (Hk & Hnd & Hc & Hcalls & HSs & HsepS & HPs & HsepP & Hst) Est. rewrite Est in Hst.
+  intros (Hk & Hnd & Hsb & Hc & Hcalls & HSs & HsepS & HPs & HsepP & Hst) Est. rewrite Est in Hst.
   destruct Hst as (Bs0 & _ & Hmax & _). now split.
 Qed.
 
@@ -612,7 +613,7 @@ Lemma pot_le rel k s g : kinv rel k s g ->
   pot g (c_state k) <= Bnd /\ (c_state k <> MNone -> pot g (c_state k) + 1 <= Bnd) /\
   calls s <= c0 + Bnd.
 Proof.
-  intros (Hk & Hnd & Hc & Hcalls & HSs & HsepS & HPs & HsepP & Hst).
+  intros (Hk & Hnd & Hsb & Hc & Hcalls & HSs & HsepS & HPs & HsepP & Hst).
   assert (H : length (gSs g) + length (gPs g) + 1 <= Bnd).
   { apply HBnd; try assumption. intros P HP. now apply HPs. }
   unfold pot in *. destruct (c_state k); repeat split; try lia; intros Hn; try lia; congruence.
@@ -702,7 +703,7 @@ Proof.
     apply (compute_next_spec QAb QPb QFb avoids_la k s g _ Hi).
     + intros _. exact Hfp.
     + intros Hmx. apply dead_meets; [|now apply Hmm].
-      destruct Hi as (_ & _ & _ & _ & _ & _ & _ & _ & Hm). rewrite Hmx in Hm.
+      destruct Hi as (_ & _ & _ & _ & _ & _ & _ & _ & _ & Hm). rewrite Hmx in Hm.
       destruct Hm as (Bs0 & _ & Hmax & _). apply Hbase_adm. now apply maxc_base.
     + exact Hnn.
     + intros s' Hs'. unfold QAb. specialize (H2 Hnn). lia.
@@ -721,11 +722,11 @@ Proof.
         destruct (meets la (c_cur k')) eqn:Hmeet; cbn [negb].
         -- apply (IH k' s' g' Hi'); rewrite Est'; try tauto.
         -- apply Hdrop. cbn [ds_post].
-           destruct Hi' as (_ & Hnd' & _ & _ & _ & _ & _ & _ & Hm). rewrite Est' in Hm.
+           destruct Hi' as (_ & Hnd' & _ & _ & _ & _ & _ & _ & _ & Hm). rewrite Est' in Hm.
            destruct Hm as (Bs0 & _ & Hmax & _). split; [now apply maxc_base|]. split; [exact Hnd'|].
            split; [exact Hmeet|]. left. now apply maxc_pr.
       * (* MIntermediate *)
-        pose proof Hi' as (_ & Hnd' & _ & _ & _ & _ & _ & _ & Hm). rewrite Est' in Hm.
+        pose proof Hi' as (_ & Hnd' & _ & _ & _ & _ & _ & _ & _ & Hm). rewrite Est' in Hm.
         destruct Hm as ([Hb' _] & _).
         destruct (meets la (c_cur k')) eqn:Hmeet.
         -- rewrite wp_bind.
@@ -743,13 +744,159 @@ Proof.
       * (* MNone *)
         apply Hdrop. cbn [ds_post]. intros P HP.
         destruct (meets la P) eqn:HmP; [reflexivity|exfalso].
-        destruct Hi' as (_ & _ & _ & _ & _ & _ & _ & _ & Hm). rewrite Est' in Hm.
+        destruct Hi' as (_ & _ & _ & _ & _ & _ & _ & _ & _ & Hm). rewrite Est' in Hm.
         destruct Hm as (Hdead & Hcov). destruct (Hcov P (Hpr_base P HP)) as [B [HB HPB]].
         exact (Hdead B P HB HP HmP HPB).
       * destruct Hnx as [H|[H|H]]; discriminate.
 Qed.
 
 End DsLoop.
+(* ---------- the enumeration of the preferred extensions used by the ideal solver ---------- *)
+Section EnumLoop.
+Hypothesis Hfp : fl = FPref.
+Variable ngr : nat.
+
+Definition inall_ok (found : list (list nat)) (in_all : list bool) : Prop :=
+  length in_all = n /\
+  forall a, a < n -> (nth_bool in_all a = true <-> forall Q, In Q found -> In a Q).
+Definition rel_found (found : list (list nat)) (P : list nat) : Prop :=
+  forall Q, In Q found -> ~ seteq P Q.
+Definition enum_inv (found : list (list nat)) (in_all : list bool) (n_in_all n_pref : nat) : Prop :=
+  inall_ok found in_all /\ n_pref = length found /\ (forall Q, In Q found -> pr F Q) /\
+  (found <> [] -> n_in_all = length (id_single in_all)).
+Definition enum_post (found : list (list nat)) (r : list bool * nat * nat) : Prop :=
+  enum_inv found (fst (fst r)) (snd (fst r)) (snd r) /\
+  ((found <> [] /\ snd (fst r) = ngr) \/
+   forall P, pr F P -> exists Q, In Q found /\ seteq P Q).
+
+Lemma nth_bool_map_seq (f : nat -> bool) a : a < n -> nth_bool (map f (seq 0 n)) a = f a.
+Proof.
+  intros Ha. unfold nth_bool.
+  rewrite (nth_indep (map f (seq 0 n)) false (f 0)) by (now rewrite map_length, seq_length).
+  rewrite map_nth, seq_nth by exact Ha. reflexivity.
+Qed.
+
+Lemma dead_seen found cur : adm F cur -> In cur found -> dead (rel_found found) [cur].
+Proof.
+  intros Ha Hin B P [<-|[]] HP HR HPc. apply (HR cur Hin).
+  apply seteq_incl_both; [exact HPc|]. apply (proj2 HP); assumption.
+Qed.
+
+Lemma same_set_length (l l' : list nat) :
+  NoDup l -> NoDup l' -> (forall a, In a l <-> In a l') -> length l = length l'.
+Proof.
+  intros H1 H2 H. apply Nat.le_antisymm; apply NoDup_incl_length; try assumption;
+    intros a Ha; now apply H.
+Qed.
+
+Lemma enum_step found in_all cur :
+  inall_ok found in_all -> pr F cur -> NoDup cur ->
+  let kept := filter (fun a => nth_bool in_all a) cur in
+  let new_in_all := map (fun i => memb i kept) (seq 0 n) in
+  inall_ok (cur :: found) new_in_all /\ length kept = length (id_single new_in_all).
+Proof.
+  intros [Hlen Hin] Hpr Hnd kept nia.
+  assert (Hlt : forall a, In a cur -> a < n).
+  { intros a Ha. apply (compact_in_args F n a HF). exact (proj1 (pr_adm F cur Hpr) a Ha). }
+  assert (Hk : forall a, In a kept <-> In a cur /\ nth_bool in_all a = true)
+    by (intros a; unfold kept; now rewrite filter_In).
+  assert (Hn : forall a, a < n -> nth_bool nia a = memb a kept)
+    by (intros a Ha; unfold nia; now rewrite nth_bool_map_seq).
+  split; [split|].
+  - unfold nia. now rewrite map_length, seq_length.
+  - intros a Ha. rewrite (Hn a Ha), memb_spec, Hk, (Hin a Ha). split.
+    + intros [H1 H2] Q [<-|HQ]; [exact H1|now apply H2].
+    + intros H. split; [apply H; now left|]. intros Q HQ. apply H. now right.
+  - apply same_set_length.
+    + unfold kept. now apply NoDup_filter.
+    + unfold id_single. apply NoDup_filter, seq_NoDup.
+    + intros a. unfold id_single. rewrite filter_In, in_seq.
+      replace (length nia) with n by (unfold nia; now rewrite map_length, seq_length). split.
+      * intros Ha. assert (a < n) by (apply Hlt; now apply Hk). split; [lia|].
+        rewrite Hn by assumption. now apply memb_spec.
+      * intros [Ha1 Ha2]. rewrite Hn in Ha2 by lia. now apply memb_spec.
+Qed.
+
+Lemma seen_dec found P :
+  {exists Q, In Q found /\ seteq P Q} + {rel_found found P}.
+Proof.
+  destruct (existsb (seteqb P) found) eqn:E.
+  - left. apply existsb_exists in E. destruct E as [Q [HQ HE]]. exists Q. split; [exact HQ|].
+    now apply seteqb_seteq.
+  - right. intros Q HQ HE. apply seteqb_seteq in HE.
+    assert (existsb (seteqb P) found = true) by (apply existsb_exists; now exists Q). congruence.
+Qed.
+
+Lemma id_enum_loop_spec fuel : forall k s g found in_all n_in_all n_pref
+    (Q : list bool * nat * nat -> Prog.st -> Prop),
+  kinv (rel_found found) k s g ->
+  (c_state k = MInit \/ c_state k = MIntermediate \/ c_state k = MMaximal \/ c_state k = MJustDiscarded) ->
+  (c_state k = MMaximal -> In (c_cur k) found) ->
+  enum_inv found in_all n_in_all n_pref ->
+  (Bnd <= fuel + pot g (c_state k) \/ FuelShort) ->
+  (forall k' s' g' found' r, kinv (rel_found found') k' s' g' -> enum_post found' r ->
+     Q r (st_add s' [zlit selv])) ->
+  wpb (id_enum_loop oracle fuel n ngr k in_all n_in_all n_pref) Q s.
+Proof.
+  assert (Hall : forall a, allowedb a = true) by (unfold fl_ok in Hfl; now rewrite Hfp in Hfl).
+  induction fuel as [|f IH]; intros k s g found in_all n_in_all n_pref Q Hi Hst Hmm Hinv Hfuel HQ;
+    cbn [id_enum_loop].
+  - rewrite wp_out_of_fuel. destruct (pot_le _ k s g Hi) as (H1 & H2 & H3). split; [exact H3|].
+    destruct Hfuel as [Hfuel|Hfs]; [exfalso|exact Hfs].
+    assert (c_state k <> MNone) by (destruct Hst as [H|[H|[H|H]]]; rewrite H; discriminate).
+    specialize (H2 H). lia.
+  - rewrite wp_bind. destruct (pot_le _ k s g Hi) as (H1 & H2 & H3).
+    assert (Hnn : c_state k <> MNone) by (destruct Hst as [H|[H|[H|H]]]; rewrite H; discriminate).
+    apply (compute_next_spec QAb QPb QFb (rel_found found) k s g _ Hi).
+    + intros _. exact Hfp.
+    + intros Hmx. apply dead_seen; [|now apply Hmm].
+      destruct (kinv_max _ _ _ _ Hi Hmx) as [Hmax _]. apply Hbase_adm. now apply maxc_base.
+    + exact Hnn.
+    + intros s' Hs'. unfold QAb. specialize (H2 Hnn). lia.
+    + intros k' s' g' Hi' Hn Hp.
+      assert (Hfuel' : Bnd <= f + pot g' (c_state k') \/ FuelShort)
+        by (destruct Hfuel as [Hf|Hf]; [left; lia|now right]).
+      assert (Hk' : k' = kk (c_cur k') (c_model k') (c_state k')) by exact (proj1 Hi').
+      assert (Hdrop : forall found' r, kinv (rel_found found') k' s' g' -> enum_post found' r ->
+                wpb (drop k';;; ret r) Q s').
+      { intros found' r Hi'' Hr. unfold drop. rewrite Hk' at 1. cbn [c_sel kk].
+        rewrite wp_bind, wp_add_clause, wp_ret. now apply (HQ k' s' g' found' r). }
+      assert (Hnx : c_state k' = MIntermediate \/ c_state k' = MMaximal \/ c_state k' = MNone).
+      { destruct (c_state k); cbn [next_ok] in Hn; tauto. }
+      destruct (c_state k') eqn:Est'.
+      * (* MMaximal: one more preferred extension *)
+        destruct (kinv_max _ _ _ _ Hi' Est') as [Hmax Hnd'].
+        assert (Hpr : pr F (c_cur k')) by now apply maxc_pr.
+        destruct Hinv as (Hok & Hnp & Hfpr & Hcnt).
+        destruct (enum_step found in_all (c_cur k') Hok Hpr Hnd') as [Hok' Hlen'].
+        cbv zeta in Hok', Hlen'.
+        set (kept := filter (fun a => nth_bool in_all a) (c_cur k')) in *.
+        set (nia := map (fun i => memb i kept) (seq 0 n)) in *.
+        assert (Hi2 : kinv (rel_found (c_cur k' :: found)) k' s' g').
+        { apply (kinv_weaken (rel_found found)); [|exact Hi']. intros P HP Q0 HQ0. apply HP. now right. }
+        assert (Hinv' : enum_inv (c_cur k' :: found) nia (length kept) (S n_pref)).
+        { split; [exact Hok'|]. split; [cbn; now rewrite Hnp|]. split.
+          - intros Q0 [<-|HQ0]; [exact Hpr|now apply Hfpr].
+          - intros _. exact Hlen'. }
+        destruct (Nat.eqb (length kept) ngr) eqn:Eex.
+        -- apply (Hdrop (c_cur k' :: found)); [exact Hi2|]. split; [exact Hinv'|]. left.
+           split; [discriminate|]. cbn [fst snd]. now apply Nat.eqb_eq.
+        -- apply (IH k' s' g' (c_cur k' :: found) nia (length kept) (S n_pref) Q Hi2);
+             rewrite ?Est'; try tauto.
+           intros _. now left.
+      * (* MIntermediate *)
+        apply (IH k' s' g' found in_all n_in_all n_pref Q Hi'); rewrite ?Est'; try tauto. discriminate.
+      * destruct Hnx as [H|[H|H]]; discriminate.
+      * (* MNone: every preferred extension has been seen *)
+        apply (Hdrop found); [exact Hi'|]. split; [exact Hinv|]. right. intros P HP.
+        destruct (seen_dec found P) as [Hs|Hr]; [exact Hs|exfalso].
+        destruct Hi' as (_ & _ & _ & _ & _ & _ & _ & _ & _ & Hm). rewrite Est' in Hm.
+        destruct Hm as (Hdead & Hcov). destruct (Hcov P (Hpr_base P HP)) as [B [HB HPB]].
+        exact (Hdead B P HB HP Hr HPB).
+      * destruct Hnx as [H|[H|H]]; discriminate.
+Qed.
+
+End EnumLoop.
 End Loops.
 
 End Core.
